@@ -185,8 +185,66 @@ def r1_c(repo, chk):
                     if cond.replace(" ", "") in ("res==0", "!res", "res!=1", "res<=0") and has_ret_null and raises and not any(fin_i < r < i for r in rets):
                         okf = True
             chk.ob("R1", "AEAD_decrypt: a failing tag verification raises CryptoError before anything is returned", okf, "the result of EVP_CipherFinal_ex is not checked: forged packets would be accepted", cu.loc(fin[0]))
-    # header protection: mask from the sample at pn_offset + 4, applied to first byte bits and pn bytes
-    chk.count("c_functions_inspected", ["AEAD_decrypt", "AEAD_encrypt"])
+    # header protection (RFC 9001 5.4): 5 mask bytes from the sample at pn_offset + 4, applied to the low bits of the
+    # first byte and to the packet-number bytes
+    import re
+
+    def sq(n):
+        return re.sub(r"\s+", "", ctext(strip(n)))
+
+    fields = {}
+    for n in cu.tu.get("inner", []):
+        if n.get("kind") == "RecordDecl":
+            fs = {f.get("name"): f.get("type", {}).get("qualType", "") for f in cq.kids(n) if f.get("kind") == "FieldDecl"}
+            if "mask" in fs and "zero" in fs:
+                fields = fs
+    def arr(t):
+        m = re.search(r"\[(\d+)\]", t or "")
+        return int(m.group(1)) if m else None
+    pn_max = 4
+    chk.ob("R1", "HeaderProtection: the ChaCha20 keystream request (zero[]) covers the first-byte mask and 4 packet-number bytes", (arr(fields.get("zero")) or 0) >= 1 + pn_max, f"zero is {fields.get('zero')}: mask bytes beyond its length stay 0, so the last packet-number byte(s) are sent unmasked and genuine 4-byte packet numbers from a peer are mis-decoded", f"src/aioquic/{cu.file}")
+    mk = cu.func("HeaderProtection_mask")
+    ups = cq.calls(mk, "EVP_CipherUpdate")
+    lens = sorted(sq(cq.args(c)[4]) for c in ups)
+    srcs = sorted(sq(cq.args(c)[3]) for c in ups)
+    outs = {sq(cq.args(c)[1]) for c in ups}
+    ok = len(ups) == 2 and outs == {"self->mask"} and [l.replace("((", "(").replace("))", ")") for l in lens] == ["16", "sizeof(self->zero)"] and srcs == ["sample", "self->zero"]
+    chk.ob("R1", "HeaderProtection_mask: AES-ECB of the 16-byte sample, or ChaCha20 keystream (zero input) keyed by the sample, into mask[]", ok, f"EVP_CipherUpdate sources {srcs} lengths {lens} outputs {sorted(outs)}", cu.loc(mk))
+    inits = [c for c in cq.calls(mk, "EVP_CipherInit_ex") if sq(cq.args(c)[4]) == "sample"]
+    chk.ob("R1", "HeaderProtection_mask: the ChaCha20 counter and nonce are the sample", len(inits) == 1, "", cu.loc(mk))
+    for fname, sample_want, buf_src in (("HeaderProtection_apply", "payload+4-pn_length", None), ("HeaderProtection_remove", "packet+pn_offset+4", None)):
+        fn = cu.func(fname)
+        mcs = cq.calls(fn, "HeaderProtection_mask")
+        ok = len(mcs) == 1 and sq(cq.args(mcs[0])[1]) == sample_want
+        chk.ob("R1", f"{fname}: the sample starts 4 bytes after the start of the packet number", ok, f"sample argument {sq(cq.args(mcs[0])[1]) if mcs else None}", cu.loc(fn))
+        xs = [n for n in cq.preorder(cq.body(fn)) if n.get("kind") == "CompoundAssignOperator" and n.get("opcode") == "^="]
+        first = sorted(sq(cq.kids(x)[1]) for x in xs if sq(cq.kids(x)[0]) == "self->buffer[0]")
+        chk.ob("R1", f"{fname}: first byte: low 4 bits masked for long headers, low 5 bits for short headers", first == ["self->mask[0]&15", "self->mask[0]&31"], f"{first}", cu.loc(fn))
+        long_if = [n for n in cq.preorder(cq.body(fn)) if n.get("kind") == "IfStmt" and sq(cq.kids(n)[0]) == "self->buffer[0]&128"]
+        ok = len(long_if) == 1 and any(x.get("kind") == "CompoundAssignOperator" and sq(cq.kids(x)[1]) == "self->mask[0]&15" for x in cq.preorder(cq.kids(long_if[0])[1]))
+        chk.ob("R1", f"{fname}: the 4-bit mask is the one used when the long-header bit is set", ok, "", cu.loc(fn))
+        good = False
+        for l in cq.for_loops(fn):
+            r = cq.loop_range(l)
+            var = r[0] if r else None
+            cond = strip(l["inner"][2]) if len(l.get("inner", [])) > 2 and l["inner"][2] else None
+            if var is None and cond is not None and cond.get("kind") == "BinaryOperator" and cond.get("opcode") == "<" and sq(cq.kids(cond)[1]) == "pn_length":
+                var = sq(cq.kids(cond)[0])
+            for x in cq.preorder(l):
+                if x.get("kind") == "CompoundAssignOperator" and x.get("opcode") == "^=" and var and sq(cq.kids(x)[0]) == f"self->buffer[pn_offset+{var}]" and sq(cq.kids(x)[1]) == f"self->mask[1+{var}]" and cond is not None and sq(cq.kids(cond)[1]) == "pn_length":
+                    good = True
+        chk.ob("R1", f"{fname}: packet-number byte i is xored with mask[1 + i] for i < pn_length", good, "", cu.loc(fn))
+    rm = cu.func("HeaderProtection_remove")
+    decls = [n for n in cq.preorder(cq.body(rm)) if n.get("kind") == "VarDecl" and n.get("name") == "pn_length"]
+    xs0 = [n for n in cq.preorder(cq.body(rm)) if n.get("kind") == "CompoundAssignOperator" and sq(cq.kids(n)[0]) == "self->buffer[0]"]
+    order = list(cq.preorder(cq.body(rm)))
+    ok = len(decls) == 1 and bool(xs0) and all(order.index(x) < order.index(decls[0]) for x in xs0) and sq(cq.kids(decls[0])[0]) == "(self->buffer[0]&3)+1"
+    chk.ob("R1", "HeaderProtection_remove: the packet-number length is read from the first byte after it was unmasked", ok, "", cu.loc(rm))
+    ap = cu.func("HeaderProtection_apply")
+    decls = [n for n in cq.preorder(cq.body(ap)) if n.get("kind") == "VarDecl" and n.get("name") == "pn_length"]
+    ok = len(decls) == 1 and sq(cq.kids(decls[0])[0]) == "(header[0]&3)+1"
+    chk.ob("R1", "HeaderProtection_apply: the packet-number length is read from the plain first byte", ok, "", cu.loc(ap))
+    chk.count("c_functions_inspected", ["AEAD_decrypt", "AEAD_encrypt", "HeaderProtection_mask", "HeaderProtection_apply", "HeaderProtection_remove"])
 
 
 # ---- R2 ----------------------------------------------------------------------------------------------
@@ -317,6 +375,11 @@ def _allow(rd: Fn, st, dec_try):
     if txt.startswith("self._close_at = ") and ("self._close_at is None", True) in lg:
         return "idle_first"
     if natom("self._state == QuicConnectionState.FIRSTFLIGHT") in lg and ("self._is_client", False) in lg:
+        # "re-initialised by the genuine packet" holds only if the block runs for *every* packet seen in FIRSTFLIGHT:
+        # nothing else (in particular no test of state the first, possibly forged, packet left behind) may guard it
+        extra = [a for a in lg if a not in (natom("self._state == QuicConnectionState.FIRSTFLIGHT"), ("self._is_client", False), ("buf.eof()", False)) and "header.packet_type" not in a[0] and "self._quic_logger" not in a[0]]
+        if extra:
+            return None
         return "firstflight"
     if txt.startswith(("self._receive_version_negotiation_packet(", "self._receive_retry_packet(")):
         return "vn_retry"
